@@ -293,8 +293,8 @@ def generate(tier):
         for c in mod.generate('quick'):
             if tier == 'quick' and c.depth > 3:
                 continue
-            if tier == 'quick' and c.depth == 3 and m in ('c02', 'c03', 'c10', 'c11') and shash(c.key) % 2:
-                continue        # the four largest spaces: every second state of the third deviation level (the owning checks run all of them)
+            if tier == 'quick' and c.depth == 3 and shash(c.key) % 2:
+                continue        # every second state of the third deviation level (the owning checks run all of them)
             cases.append(Case('C01|%s' % c.key, c.body, c.spec, expect=c.expect, run=False, depth=c.depth))
     seen, out = set(), []
     for c in cases:
@@ -306,7 +306,7 @@ def generate(tier):
 
 def check(v, tier):
     cases = generate(tier)
-    res = rt_run(cases, run=False, name='C01', shard_size=750)
+    res = rt_run(cases, run=False, name='C01', shard_size=475)
     v.add_states(cases)
     warn_free = 0
     for r in res:
@@ -345,7 +345,7 @@ def check(v, tier):
     for c in cases[::step][:8]:
         v.sample({'key': c.key, 'program': c.body[:1200]})
     if tier == 'quick':
-        v.cap('quick tier: all 4095 trait subsets on two canonical shapes only (sizes 1, 2 and all on the other seven); behavioural request spaces restricted to at most three deviations from the plain derive (every second state of the third level for the four largest spaces)')
+        v.cap('quick tier: all 4095 trait subsets on two canonical shapes only (sizes 1, 2 and all on the other seven); behavioural request spaces restricted to at most three deviations from the plain derive (every second state of the third level)')
     guard(len(cases) > 8000, 'too few C01 states')
     return v.finish('(a) trait dimension: every non-empty subset of the 12 traits (of the traits a shape supports) on canonical shapes {generic struct, generic two-variant enum; thorough: + tuple struct, '
                     'unit struct, single-variant enum, empty enum, enum with unit variants, struct with lifetime / bounded type / const parameters and a where-clause, union}, with the markers each trait '
